@@ -29,7 +29,9 @@ git apply "$ROOT/$OUT/patch.diff" >>"$LOG" 2>&1 || { echo "PATCH DOES NOT APPLY"
 echo "== demo with patch" >>"$LOG"; run_demo; B=$?
 rm -f "$WT/$D/tests/$DEMO"; [ $CREATED_TESTS_DIR -eq 1 ] && rmdir "$WT/$D/tests"
 echo "== existing tests of $CRATE with patch" >>"$LOG"
-nice -n 5 cargo test -p "$CRATE" --offline -j 6 -- --test-threads 6 >>"$LOG" 2>&1; C=$?
+# CONFIRM_TESTS_CRATE: crate whose existing tests are run with the patch (default: the demo's crate);
+# CONFIRM_TEST_ARGS: extra cargo arguments for them (e.g. --lib where the crate's integration tests need files absent offline)
+nice -n 5 cargo test -p "${CONFIRM_TESTS_CRATE:-$CRATE}" ${CONFIRM_TEST_ARGS:-} --offline -j 6 -- --test-threads 6 >>"$LOG" 2>&1; C=$?
 git checkout -q -- .
 echo "seed $ROOT/$OUT: demo_without_patch_exit=$A demo_with_patch_exit=$B existing_tests_with_patch_exit=$C"
 [ $A -eq 0 ] && [ $B -ne 0 ] && [ $C -eq 0 ] && echo CONFIRMED || echo NOT-CONFIRMED
